@@ -9546,9 +9546,13 @@ class TreeSequence:
 
         # TODO this should be done in C as we'll want to support this method there.
         def tjd_func(sample_set_sizes, flattened, **kwargs):
-            n = sample_set_sizes
-            T = self.ll_tree_sequence.diversity(n, flattened, **kwargs)
-            S = self.ll_tree_sequence.segregating_sites(n, flattened, **kwargs)
+            T = self.ll_tree_sequence.diversity(sample_set_sizes, flattened, **kwargs)
+            S = self.ll_tree_sequence.segregating_sites(
+                sample_set_sizes, flattened, **kwargs
+            )
+            # The sizes are a uint32 array: do the arithmetic below in floating
+            # point so that n**2 and 9 * n * (n - 1) cannot wrap around.
+            n = np.array(sample_set_sizes, dtype=np.float64)
             h = np.array([np.sum(1 / np.arange(1, nn)) for nn in n])
             g = np.array([np.sum(1 / np.arange(1, nn) ** 2) for nn in n])
             with np.errstate(invalid="ignore", divide="ignore"):
